@@ -482,6 +482,10 @@ func runC17(c *Ctx) {
 	checkDeriveKeyUse(c, "C17-R5")
 	checkDerivedPassphraseIsCallersOwn(c, "C17-R3")
 	checkCryptoKeyHoldersAreDistinct(c, "C17-R1")
+	// sealed under the right key: a crypto key is selected and used with the manager mutex held, so a concurrent Lock()
+	// cannot zero it between selection and use (C04-R6's rules)
+	checkSelectedKeyUsedUnderLock(c, "C17-R1")
+	checkLiveKeysUsedUnderLock(c, "C17-R1")
 	checkSaltedHash(c, "C17-R5")
 	checkInvalidPasswordOnlyOnDigestMismatch(c, "C17-R3")
 	checkChangeVerifiesOldPassphrase(c, "C17-R5")
